@@ -30,6 +30,14 @@ import (
 
 const maxW = ledger.MaxWindow
 
+// every recheckEvery-th transition is executed twice and the two results compared (VERIF_C12_RECHECK=1: every one; experiments)
+var recheckEvery = func() int64 {
+	if n, _ := strconv.Atoi(os.Getenv("VERIF_C12_RECHECK")); n > 0 {
+		return int64(n)
+	}
+	return 50
+}()
+
 type result struct {
 	key      string
 	enabled  []act
@@ -322,7 +330,7 @@ func explore(t *testing.T, rep *ev.Report, cfg space, deadline time.Time, founds
 					rep.HarnessError("%s %v: %s", cfg.Name, seqString(seq), r.harness)
 					continue
 				}
-				if st.transitions%50 == 1 { // determinism self-check
+				if st.transitions%recheckEvery == 1 || recheckEvery == 1 { // determinism self-check
 					r2 := cfg.run(t, seq, false)
 					st.rechecked++
 					if r2.key != r.key || len(r2.viol) != len(r.viol) {
